@@ -238,7 +238,7 @@ def run(ck):
         seen.add(key)
         ck.report(dict(input=lines[i], term=TERMS[cases[i][0]["term"]], implementation=(iout[i] or "")[:6000]), oracle=key, key="forces:" + key,
                   what="internal forces violate " + fmsg)
-    if broken and not fails:
+    if broken and not ck.violations:
         i = broken[0]
         ck.report(dict(input=lines[i], term=TERMS[cases[i][0]["term"]], implementation=(iout[i] or "")[:6000], n_disagreements=len(broken)),
                   unchecked="correspondence Forces.v(NumF) = cell force routines (%s)" % TERMS[cases[i][0]["term"]],
